@@ -139,6 +139,16 @@ def gen(S, tier):
             tail.append(w.pick([["advance"], ["advance"], ["tick", w.pick([0, 1000, 49_000, 99_000, 101_000, 250_000])], ["msg", w.pick(MESSAGES)]]))
         tail.append(["finish", "end", False])
         sc["manual_tail"] = tail
+    x = S("extension")
+    if x.chance(0.15):
+        # the body announces the end itself: its last message is the text of the end message
+        for st in reversed(body):
+            if st[0] == "msg":
+                st[1] = "end"
+                break
+    if not sc["real_stream"] and not sc.get("manual_tail") and x.chance(0.15):
+        # fault: one write to the terminal fails (EPIPE once; nothing of it is written), whoever issues it
+        sc["write_fault_at"] = x.randint(0, 14)
     return sc
 
 
@@ -344,6 +354,12 @@ def _auto(sc, res, clock, log):
             res.violate("line_is_one_frame", "auto", "terminal line shows %r after %s wrote %r" % (row, actor, data))
 
     stream, out = _mk_io(sc, log, screen, on_write, after_write)
+    if sc.get("write_fault_at") is not None and hasattr(stream, "fail_at"):
+        stream.fail_at = {sc["write_fault_at"]}
+
+    def injected(e):
+        return isinstance(e, IOError) and "simulated: broken pipe" in str(e) and stream.faults_fired > 0
+
     if sc.get("indent"):
         # the indicator runs inside an indentation scope of its output (the blanks in front of the
         # carriage return are wiped with the line: the frame itself still starts at column 0)
@@ -432,6 +448,12 @@ def _auto(sc, res, clock, log):
             alive = [t.name for t in sched.threads.values() if t.name != "main" and t.state != "done"]
             if alive:
                 res.violate("spinner_joined", "alive_after_exit", "threads %r still alive after the with-block (%s exit)" % (alive, "exception" if want_raise else "normal"))
+            if injected(raised):
+                # the failed write surfaced in the caller's thread: the block may end with it (whatever the
+                # body did); stopped and joined was checked above, nothing more is promised for this exit
+                res.probe("write_fault_surfaced_from_the_block")
+                outcome = "exception"
+                break
             if want_raise and raised is None:
                 res.violate("exception_propagates", "swallowed", "the body raised %s but the with-statement ended normally" % want_raise)
             elif want_raise and (((want_raise == "KeyboardInterrupt") != isinstance(raised, KeyboardInterrupt))
@@ -492,8 +514,12 @@ def _auto(sc, res, clock, log):
         left, stuck = sched.shutdown()
         if stuck:
             raise HarnessError("real threads did not finish: %r" % stuck)
+    if getattr(stream, "faults_fired", 0):
+        res.fault("terminal_write_fails_once", stream.faults_fired)
     for t in sched.threads.values():
-        if t.exc is not None:
+        if t.exc is not None and injected(t.exc):
+            res.probe("write_fault_hit_the_spinner_thread")  # it dies of it, as a thread does; the caller's exit still holds
+        elif t.exc is not None:
             res.violate("spinner_died", type(t.exc).__name__, "thread %s died with %r" % (t.name, t.exc))
     _last["choices"] = list(sched.choices)
     _last["sets"] = [list(x) for x in sched.choice_sets]
